@@ -148,13 +148,15 @@ def _make_run(name, pnames, data, access):
         '{' + ', '.join(f'{p!r}: self.params[{p!r}]' for p in pnames) + '}'
     src = f'''
 def run({args}):
-    _RUNLOG.append((self.fullname, id(self)))
-    self.save_to_run_info({{'nth_run_of_task': sum(1 for _r in _RUNLOG if _r[0] == self.fullname)}})
-    params = {getp}
     inputs = {{}}
     for _n, _t in self.input_tasks.items():
         _k = _n.split('::')[-1]
         inputs[_k] = _norm_input(_t.value) if hasattr(_t, 'value') and hasattr(_t, 'fullname') else _t
+    _RUNLOG.append((self.fullname, id(self)))
+    _nth = sum(1 for _r in _RUNLOG if _r[0] == self.fullname)
+    self.save_to_run_info({{'nth_run_of_task': _nth}})
+    self.logger.info('step %d of %s' % (_nth, self.fullname))
+    params = {getp}
     f = _FAIL.get(self.slugname)
     if f is not None:
         f(self)
